@@ -68,8 +68,43 @@ class Tok:
         return '<%s>' % self.name
 
 
+# --- frames: "what the function does not say it changes, it leaves alone" ------------------------
+
+
+def snapshot(o):
+    """All fields of an object as {name: value}: the field record of an interpreted object / exception value, the slots
+    and __dict__ of a real one."""
+    from pyvc.core import Obj
+
+    if isinstance(o, Obj):
+        return dict(o._fields)
+    if isinstance(o, ExcVal):
+        return dict(o.fields)
+    out = {}
+    for c in type(o).__mro__:
+        sl = c.__dict__.get('__slots__', ())
+        for n in ((sl,) if isinstance(sl, str) else sl):
+            try:
+                out[n] = object.__getattribute__(o, n)
+            except AttributeError:
+                pass
+    out.update(getattr(o, '__dict__', {}))
+    return out
+
+
+def same_fields(now, before, except_for=()):
+    """No field added, none removed, every field (other than `except_for`) still bound to the very same object."""
+    return set(now) == set(before) and all(now[k] is before[k] for k in before if k not in except_for)
+
+
+def same_mapping(now, before):
+    """A dict still has the same keys, in the same order, bound to the very same objects."""
+    return list(now) == list(before) and all(now[k] is before[k] for k in before)
+
+
 @harness(PROP, APP + '._find_error_handler')
 def find_error_handler(v):
+    v.expect_covers('found', 'not-found')
     classes, raised = hierarchy(v)
     R = {}
     for c in classes + [Exception, BaseException]:
@@ -78,10 +113,15 @@ def find_error_handler(v):
     app = v.obj(APP, _error_handlers=R)
     R0 = dict(R)
     ex = raised() if v.concrete else ExcVal(raised)
+    app0, ex0 = snapshot(app), snapshot(ex)
     out = v.call(app, ex)
     v.check('no-exception', out.exc is None)
     if out.exc is not None:
         return
+    # the same for everything else in reach: no memo beside the registry, no mark left on the exception (the handler is
+    # "given" what was raised, as it was raised)
+    v.check('lookup-writes-no-other-app-state', same_fields(snapshot(app), app0))
+    v.check('lookup-leaves-the-exception-unchanged', same_fields(snapshot(ex), ex0))
     # a lookup is a pure read: "the latest registration per class winning" can only hold for later registrations
     # if resolving an exception never writes into the registry itself (no memoised / phantom entries)
     R1 = v.get(app, '_error_handlers')
@@ -245,7 +285,9 @@ class Handler:
     def __call__(self, req, resp, ex, params, **kw):
         v = self.v
         self.calls.append({'args': (req, resp, ex, params), 'kw': kw, 'text': v.get(resp, 'text'), 'data': v.get(resp, '_data'),
-                           'media': v.get(resp, '_media'), 'rendered': v.get(resp, '_media_rendered')})
+                           'media': v.get(resp, '_media'), 'rendered': v.get(resp, '_media_rendered'),
+                           'status': v.get(resp, 'status'), 'headers': map_of(v, resp), 'params': dict(params) if isinstance(params, dict) else params,
+                           'resp-fields': snapshot(resp), 'ex-fields': snapshot(ex)})
         act = v.choose(4, 'handler-does')
         self.act = act
         if act == 0:
@@ -288,6 +330,9 @@ def mk_resp(v, with_body=True):
     return resp, H0
 
 
+BODY_FIELDS = ('text', '_data', '_media', '_media_rendered')
+
+
 def handle_exception(v, asgi):
     unset = v.real('falcon._typing:_UNSET')
     h_exact, h_base = Handler(v, 'h_exact', asgi), Handler(v, 'h_base', asgi)
@@ -300,14 +345,30 @@ def handle_exception(v, asgi):
     req = Req(v)
     resp, H0 = mk_resp(v)
     ex = mk_exc(v, Sub if v.choose(2, 'raised-subclass?') else Boom)
-    params = {'id': Tok('param')}
+    PARAM = Tok('param')
+    params = {'id': PARAM}
+    v.expect_covers('no-handler', 'handler-returns', 'handler-raises-status', 'handler-raises-error', 'handler-raises-other')
+    COOKIES = Tok('cookies-set-so-far')
+    v.set(resp, '_cookies', COOKIES)  # opaque: whatever cookies were set before the exception
+    R0, app0, req0, resp0, ex0 = dict(R), snapshot(app), snapshot(req), snapshot(resp), snapshot(ex)
     out = v.call(app, req, resp, ex, params)
 
+    # frames that hold on every outcome: handling an exception decides with the registry, it does not edit it; the app, the
+    # request, the raised exception and the responder params are only passed on
+    v.check('handling-leaves-the-registry-unchanged', v.get(app, '_error_handlers') is R and same_mapping(R, R0))
+    v.check('handling-writes-no-app-state', same_fields(snapshot(app), app0))
+    v.check('handling-leaves-the-request-unchanged', same_fields(snapshot(req), req0))
+    v.check('handling-leaves-the-raised-exception-unchanged', same_fields(snapshot(ex), ex0))
+    v.check('handling-leaves-the-params-unchanged', list(params.items()) == [('id', PARAM)])
+    # "text, data or media set so far discarded": nothing else of the response is -- cookies, extra headers, the stream,
+    # the context ... (every field other than status / headers / the four body fields) stay as they were
+    v.check('only-body-status-and-headers-of-the-response-are-written', same_fields(snapshot(resp), resp0, except_for=BODY_FIELDS + ('status',)))
     for h in other:
         v.check('only-the-selected-handler-is-called', len(h.calls) == 0)
     if expected is None:
         v.check('returns-false-when-no-handler', out.exc is None and out.value is False)
         v.check('nothing-rendered-when-no-handler', len(ser.calls) == 0)
+        v.check('status-and-headers-left-alone-when-no-handler', And(v.get(resp, 'status') == '200 OK', map_of(v, resp).eq(H0)))
         v.cover('no-handler')
         return
     h = expected
@@ -321,6 +382,11 @@ def handle_exception(v, asgi):
     v.check('data-discarded-before-handler', c['data'] is None)
     v.check('media-discarded-before-handler', c['media'] is None)
     v.check('rendered-media-cache-discarded-before-handler', c['rendered'] is unset)
+    # ... and only those: the handler sees the status, headers and every other response field as they were set so far,
+    # the exception as raised and the params as the responder would have got them
+    v.check('status-and-headers-survive-until-the-handler', And(c['status'] == '200 OK', c['headers'].eq(H0)))
+    v.check('nothing-but-the-body-discarded-before-handler', same_fields(c['resp-fields'], resp0, except_for=BODY_FIELDS))
+    v.check('handler-sees-exception-and-params-as-raised', same_fields(c['ex-fields'], ex0) and isinstance(c['params'], dict) and list(c['params'].items()) == [('id', PARAM)])
     H1 = map_of(v, resp)
     if h.act == 3:
         v.check('other-exception-from-handler-propagates', same_exc(v, out.exc, h.raised))
